@@ -8,51 +8,123 @@ namespace CelmaVerif.Containers
 section seq
 variable {α : Type} [DecidableEq α] {E : Elem α} {k : SeqKind} {o : Opts}
 
-theorem elemStep_ok_accepts {c c1 : List α} {t : List Char} (h : elemStep E k o c t = .ok c1) : Accepts E o t := by
+/-- a store that went through is `stepV` (also without `Valid`: the unconfigurable combinations throw) -/
+theorem storeValue_ok_eq {c c1 : List α} {v : α} (h : storeValue E k o c v = .ok c1) : c1 = stepV E k o c v := by
+  unfold storeValue containsValue at h
+  unfold stepV
+  cases hu : o.unique
+  · rw [hu] at h
+    simp only [Bool.false_eq_true, if_false, Res.ok.injEq] at h
+    subst h
+    simp only [Bool.false_or]
+    by_cases hm : v ∈ c
+    · cases hs : k.isSet
+      · simp
+      · simp [hm, addValue_set_mem v c hs hm]
+    · simp [hm]
+  · rw [hu] at h
+    simp only [if_true] at h
+    cases hit : k.hasIterators
+    · rw [hit] at h; simp at h
+    · rw [hit] at h
+      simp only [if_true] at h
+      by_cases hm : v ∈ c
+      · simp only [hm, decide_true] at h
+        cases hde : o.dupErr
+        · rw [hde] at h
+          simp only [Bool.false_eq_true, if_false, Res.ok.injEq] at h
+          subst h
+          simp [hm]
+        · rw [hde] at h; simp at h
+      · simp only [hm, decide_false, Res.ok.injEq] at h
+        subst h
+        simp [hm]
+
+/-- what a successful step says about its token: it passed the checks and converted after formatting for the
+    position `c.length` -/
+theorem elemStep_ok_accepts {c c1 : List α} {t : List Char} (h : elemStep E k o c t = .ok c1) :
+    runChecks o.checks t = none ∧ ∃ v, valOf E k o c.length t = some v ∧ c1 = stepV E k o c v := by
   unfold elemStep at h
-  unfold Accepts valOf
+  unfold valOf
   cases hchk : runChecks o.checks t with
   | some e => rw [hchk] at h; cases h
   | none =>
     rw [hchk] at h
     simp only at h
-    cases hcv : E.conv (applyFmt o.fmt t) with
+    cases hcv : E.conv (fmtSeq k o c.length t) with
     | none => rw [hcv] at h; cases h
-    | some v => exact ⟨rfl, rfl⟩
+    | some v =>
+      rw [hcv] at h
+      exact ⟨rfl, v, rfl, storeValue_ok_eq h⟩
 
-theorem elems_ok_accepts : ∀ (ts : List (List Char)) (c c' : List α), elems E k o c ts = (c', none) →
-    ∀ t ∈ ts, Accepts E o t
-  | [], _, _, _ => by simp
-  | t :: ts, c, c', h => by
+theorem elems_ok_accepts (hl : LawfulLe E.le) (base : List α) : ∀ (ts : List (List Char)) (c c' done : List α),
+    Inv E k o base c done → elems E k o c ts = (c', none) →
+    AccAll E k o base done ts ∧ Inv E k o base c' (done ++ vals E k o base done ts)
+  | [], c, c', done, hi, h => by
+    rw [elems] at h
+    cases h
+    exact ⟨trivial, by simpa [vals] using hi⟩
+  | t :: ts, c, c', done, hi, h => by
     rw [elems] at h
     cases hst : elemStep E k o c t with
     | ok c1 =>
       rw [hst] at h
-      intro t' ht'
-      rcases List.mem_cons.mp ht' with rfl | ht'
-      · exact elemStep_ok_accepts hst
-      · exact elems_ok_accepts ts c1 c' h t' ht'
+      obtain ⟨hchk, v, hv, hc1⟩ := elemStep_ok_accepts hst
+      rw [length_of_inv hi] at hv
+      subst hc1
+      have := elems_ok_accepts hl base ts _ c' (done ++ [v]) (stepV_inv hl hi v) h
+      refine ⟨⟨hchk, v, hv, this.1⟩, ?_⟩
+      rw [vals_cons_some ts hv]
+      simpa [List.append_assoc] using this.2
     | throw e => rw [hst] at h; cases h
     | oob w => rw [hst] at h; cases h
 
 theorem assignP_ok_elems {s s' : SeqState α} {u : List Char} (h : assignP E k o s u = (s', none)) :
-    ∃ c1, elems E k o (startContent s) (tokens o.sep u) = (c1, none) := by
+    ∃ c1, elems E k o (startContent s) (tokens o.sep u) = (c1, none) ∧
+      (s' = ⟨c1, false⟩ ∨ (o.sort = true ∧ s' = ⟨isort E.le c1, false⟩)) := by
   cases hel : elems E k o (startContent s) (tokens o.sep u) with
   | mk c1 st =>
+    unfold assignP at h
+    unfold startContent at hel
+    simp only [hel] at h
     cases st with
-    | none => exact ⟨c1, rfl⟩
-    | some x =>
-      exfalso
-      unfold assignP at h
-      unfold startContent at hel
-      simp only [hel] at h
-      cases h
+    | none =>
+      refine ⟨c1, rfl, ?_⟩
+      simp only at h
+      cases hs : o.sort
+      · rw [hs] at h
+        simp only [Bool.false_eq_true, if_false, Prod.mk.injEq, and_true] at h
+        exact Or.inl h.symm
+      · rw [hs] at h
+        simp only [if_true] at h
+        unfold sortContent at h
+        by_cases hk : k.sortable = true
+        · rw [if_pos hk] at h
+          simp only [Prod.mk.injEq, and_true] at h
+          exact Or.inr ⟨rfl, h.symm⟩
+        · rw [if_neg hk] at h
+          simp at h
+    | some x => simp at h
 
-/-- whatever was given: if the evaluation went through, every single element passed the checks and converted -/
-theorem runP_ok_accepts : ∀ (uses : List (List Char)) (s s' : SeqState α), runP E k o s uses = (s', none) →
-    ∀ t ∈ allTokens o.sep uses, Accepts E o t
-  | [], _, _, _ => by simp [allTokens]
-  | u :: us, s, s', h => by
+theorem assignP_ok_accepts (hl : LawfulLe E.le) (base : List α) {s s' : SeqState α} {u : List Char} (done : List α)
+    (hi : Inv E k o base (startContent s) done) (h : assignP E k o s u = (s', none)) :
+    AccAll E k o base done (tokens o.sep u) ∧
+      Inv E k o base (startContent s') (done ++ vals E k o base done (tokens o.sep u)) := by
+  obtain ⟨c1, hc1, hs'⟩ := assignP_ok_elems h
+  have := elems_ok_accepts hl base _ _ c1 done hi hc1
+  refine ⟨this.1, ?_⟩
+  rcases hs' with rfl | ⟨hs, rfl⟩
+  · exact this.2
+  · show Inv E k o base (isort E.le c1) _
+    exact ⟨(isort_perm c1).trans this.2.perm, fun h => (by rw [hs] at h; cases h), fun _ => isort_sorted hl c1⟩
+
+/-- whatever was given: if the evaluation went through, every single element passed the checks and converted —
+    after the general format and the formatters of the position at which it arrived -/
+theorem runP_ok_accepts (hl : LawfulLe E.le) (base : List α) : ∀ (uses : List (List Char)) (s s' : SeqState α)
+    (done : List α), Inv E k o base (startContent s) done → runP E k o s uses = (s', none) →
+    AccAll E k o base done (allTokens o.sep uses)
+  | [], _, _, _, _, _ => by simp [allTokens, AccAll]
+  | u :: us, s, s', done, hi, h => by
     rw [runP] at h
     cases ha : assignP E k o s u with
     | mk s1 st =>
@@ -61,12 +133,10 @@ theorem runP_ok_accepts : ∀ (uses : List (List Char)) (s s' : SeqState α), ru
       | some x => simp at h
       | none =>
         simp only at h
-        obtain ⟨c1, hc1⟩ := assignP_ok_elems ha
-        intro t ht
-        have : t ∈ tokens o.sep u ++ allTokens o.sep us := by simpa [allTokens] using ht
-        rcases List.mem_append.mp this with ht | ht
-        · exact elems_ok_accepts _ _ _ hc1 t ht
-        · exact runP_ok_accepts us s1 s' h t ht
+        have h1 := assignP_ok_accepts hl base done hi ha
+        have htok : allTokens o.sep (u :: us) = tokens o.sep u ++ allTokens o.sep us := by simp [allTokens]
+        rw [htok, accAll_append]
+        exact ⟨h1.1, runP_ok_accepts hl base us s1 s' _ h1.2 h⟩
 
 /-- after any use the clear flag is down -/
 theorem assignP_clearPending (s : SeqState α) (u : List Char) : (assignP E k o s u).1.clearPending = false := by
@@ -138,28 +208,28 @@ theorem runP_sorted (hl : LawfulLe E.le) (hs : o.sort = true) : ∀ (uses : List
 def HasDup (base all : List α) : Prop := ¬ (all.Nodup ∧ ∀ v ∈ all, v ∉ base)
 
 theorem elems_dup (hl : LawfulLe E.le) (hv : Valid k o) (hu : o.unique = true) (he : o.dupErr = true) (base : List α) :
-    ∀ (ts : List (List Char)) (c done : List α), Inv E k o base c done → (∀ t ∈ ts, Accepts E o t) →
-      (done.Nodup ∧ ∀ v ∈ done, v ∉ base) → HasDup base (done ++ vals E o ts) →
+    ∀ (ts : List (List Char)) (c done : List α), Inv E k o base c done → AccAll E k o base done ts →
+      (done.Nodup ∧ ∀ v ∈ done, v ∉ base) → HasDup base (done ++ vals E k o base done ts) →
       ∃ c', elems E k o c ts = (c', some (.exc .runtime_error))
   | [], c, done, _, _, hd, hdup => by
     exfalso; apply hdup; simpa [vals] using hd
   | t :: ts, c, done, hi, hacc, hd, hdup => by
-    obtain ⟨hchk, hconv⟩ := hacc t List.mem_cons_self
-    obtain ⟨v, hvt⟩ := Option.isSome_iff_exists.mp hconv
-    have hvals : vals E o (t :: ts) = v :: vals E o ts := by simp [vals, hvt]
+    obtain ⟨hchk, v, hvt, hrest⟩ := hacc
+    have hvals := vals_cons_some ts hvt
     have hstepeq : elemStep E k o c t = storeValue E k o c v := by
       unfold elemStep
       rw [hchk]
       simp only
       unfold valOf at hvt
-      rw [hvt]
+      rw [length_of_inv hi, hvt]
     by_cases hm : v ∈ c
     · refine ⟨c, ?_⟩
       rw [elems, hstepeq, storeValue_dup hv c v hu he hm]
     · have hnot : ¬ (v ∈ base ∨ v ∈ done) := fun h => hm ((mem_of_inv hi (by simp [hu]) v).mpr h)
       have hok := storeValue_ok (E := E) hv c v (fun h => hm h.2.2)
       have hi' := stepV_inv hl hi v
-      have hassoc : done ++ vals E o (t :: ts) = (done ++ [v]) ++ vals E o ts := by rw [hvals]; simp
+      have hassoc : done ++ vals E k o base done (t :: ts) = (done ++ [v]) ++ vals E k o base (done ++ [v]) ts := by
+        rw [hvals]; simp
       have hd' : (done ++ [v]).Nodup ∧ ∀ x ∈ done ++ [v], x ∉ base := by
         constructor
         · refine List.nodup_append.mpr ⟨hd.1, by simp, ?_⟩
@@ -174,8 +244,7 @@ theorem elems_dup (hl : LawfulLe E.le) (hv : Valid k o) (hu : o.unique = true) (
           · simp only [List.mem_singleton] at hx
             subst hx
             exact fun hb => hnot (Or.inl hb)
-      obtain ⟨c', hc'⟩ := elems_dup hl hv hu he base ts (stepV E k o c v) (done ++ [v]) hi'
-        (fun t' ht' => hacc t' (List.mem_cons_of_mem _ ht')) hd' (hassoc ▸ hdup)
+      obtain ⟨c', hc'⟩ := elems_dup hl hv hu he base ts (stepV E k o c v) (done ++ [v]) hi' hrest hd' (hassoc ▸ hdup)
       refine ⟨c', ?_⟩
       rw [elems, hstepeq, hok]
       exact hc'
@@ -183,26 +252,27 @@ theorem elems_dup (hl : LawfulLe E.le) (hv : Valid k o) (hu : o.unique = true) (
 theorem runP_dup (hl : LawfulLe E.le) (hv : Valid k o) (hu : o.unique = true) (he : o.dupErr = true)
     (base : List α) :
     ∀ (uses : List (List Char)) (s : SeqState α) (done : List α), Inv E k o base (startContent s) done →
-      (∀ t ∈ allTokens o.sep uses, Accepts E o t) → (done.Nodup ∧ ∀ v ∈ done, v ∉ base) →
-      HasDup base (done ++ vals E o (allTokens o.sep uses)) →
+      AccAll E k o base done (allTokens o.sep uses) → (done.Nodup ∧ ∀ v ∈ done, v ∉ base) →
+      HasDup base (done ++ vals E k o base done (allTokens o.sep uses)) →
       ∃ s', runP E k o s uses = (s', some (.exc .runtime_error))
   | [], _, done, _, _, hd, hdup => by
     exfalso; apply hdup; simpa [vals, allTokens] using hd
   | u :: us, s, done, hi, hacc, hd, hdup => by
     have htok : allTokens o.sep (u :: us) = tokens o.sep u ++ allTokens o.sep us := by simp [allTokens]
-    have hvals : vals E o (allTokens o.sep (u :: us)) = vals E o (tokens o.sep u) ++ vals E o (allTokens o.sep us) := by
-      rw [htok]; simp [vals, List.filterMap_append]
-    have hacc1 : ∀ t ∈ tokens o.sep u, Accepts E o t :=
-      fun t ht => hacc t (by rw [htok]; exact List.mem_append_left _ ht)
-    by_cases h1 : ((done ++ vals E o (tokens o.sep u)).Nodup ∧ ∀ v ∈ done ++ vals E o (tokens o.sep u), v ∉ base)
+    have hvals : vals E k o base done (allTokens o.sep (u :: us)) = vals E k o base done (tokens o.sep u) ++
+        vals E k o base (done ++ vals E k o base done (tokens o.sep u)) (allTokens o.sep us) := by
+      rw [htok, vals_append]
+    rw [htok, accAll_append] at hacc
+    by_cases h1 : ((done ++ vals E k o base done (tokens o.sep u)).Nodup ∧
+        ∀ v ∈ done ++ vals E k o base done (tokens o.sep u), v ∉ base)
     · -- this use is fine, the repeated value comes later
-      obtain ⟨c1, hc1, hinv1, _⟩ := assignP_inv hl hv base s u done hi hacc1 (fun _ _ => h1)
+      obtain ⟨c1, hc1, hinv1, _⟩ := assignP_inv hl hv base s u done hi hacc.1 (fun _ _ => h1)
       have hstart : startContent (⟨c1, false⟩ : SeqState α) = c1 := rfl
-      obtain ⟨s', hs'⟩ := runP_dup hl hv hu he base us ⟨c1, false⟩ (done ++ vals E o (tokens o.sep u))
-        (hstart ▸ hinv1) (fun t ht => hacc t (by rw [htok]; exact List.mem_append_right _ ht)) h1
+      obtain ⟨s', hs'⟩ := runP_dup hl hv hu he base us ⟨c1, false⟩ (done ++ vals E k o base done (tokens o.sep u))
+        (hstart ▸ hinv1) hacc.2 h1
         (by rw [List.append_assoc, ← hvals]; exact hdup)
       exact ⟨s', by rw [runP, hc1]; exact hs'⟩
-    · obtain ⟨c', hc'⟩ := elems_dup hl hv hu he base (tokens o.sep u) (startContent s) done hi hacc1 hd h1
+    · obtain ⟨c', hc'⟩ := elems_dup hl hv hu he base (tokens o.sep u) (startContent s) done hi hacc.1 hd h1
       refine ⟨⟨c', false⟩, ?_⟩
       rw [runP]
       unfold assignP
